@@ -190,3 +190,78 @@ def rel_err(got, want, scale=None):
     if got.size == 0:
         return 0.0
     return float(np.max(np.abs(got - want))) / scale
+
+
+# ---------------------------------------------------------------------------------------------------------
+# TT-form identities evaluated by the harness (for sizes that cannot be matricised)
+# ---------------------------------------------------------------------------------------------------------
+
+def tt_inner(a, b):
+    """<a, b> = sum conj(a) * b over all entries, by transfer matrices (cores of equal dims)"""
+    env = np.ones((1, 1), dtype=complex)
+    for ca, cb in zip(a, b):
+        # env[ra, rb]; ca[ra, m, n, ra'], cb[rb, m, n, rb']
+        tmp = np.tensordot(env, np.conj(ca), axes=([0], [0]))       # (rb, m, n, ra')
+        env = np.tensordot(tmp, cb, axes=([0, 1, 2], [0, 1, 2]))     # (ra', rb')
+    return env[0, 0]
+
+
+def tt_norm(a):
+    return float(np.sqrt(max(tt_inner(a, a).real, 0.0)))
+
+
+def tt_add(a, b):
+    d = len(a)
+    out = []
+    for i, (ca, cb) in enumerate(zip(a, b)):
+        ra, m, n, ra2 = ca.shape
+        rb, _, _, rb2 = cb.shape
+        dt = np.result_type(ca, cb)
+        if d == 1:
+            out.append((ca + cb).astype(dt))
+        elif i == 0:
+            out.append(np.concatenate([ca, cb], axis=3).astype(dt))
+        elif i == d - 1:
+            out.append(np.concatenate([ca, cb], axis=0).astype(dt))
+        else:
+            c = np.zeros((ra + rb, m, n, ra2 + rb2), dtype=dt)
+            c[:ra, :, :, :ra2] = ca
+            c[ra:, :, :, ra2:] = cb
+            out.append(c)
+    return out
+
+
+def tt_scale(a, s):
+    out = [np.array(c) for c in a]
+    out[0] = out[0] * s
+    return out
+
+
+def tt_matmul(a, b):
+    """operator product core by core: (a @ b)"""
+    out = []
+    for ca, cb in zip(a, b):
+        c = np.einsum('amkb,cknd->acmnbd', ca, cb)
+        s = c.shape
+        out.append(c.reshape(s[0] * s[1], s[2], s[3], s[4] * s[5]))
+    return out
+
+
+def tt_adjoint(a):
+    return [np.conj(np.transpose(c, [0, 2, 1, 3])) for c in a]
+
+
+def tt_eye(dims):
+    return [np.eye(n).reshape(1, n, n, 1) for n in dims]
+
+
+def tt_colsum(a):
+    """1^T A as a vector-type TT (rows summed out)"""
+    return [np.sum(c, axis=1, keepdims=True).transpose(0, 2, 1, 3) for c in a]
+
+
+def tt_entry(a, rows, cols):
+    v = np.ones((1,), dtype=complex)
+    for c, i, j in zip(a, rows, cols):
+        v = v @ c[:, i, j, :]
+    return v[0]
